@@ -329,6 +329,9 @@ def oracle(case, out, strict_disabled=False):
                 return ('trace-state-is-the-samplers-if-given-else-the-parents', f'{where}: got {ctx["ts"]} want {want_ts}')
             if gen_ok and not valid(ctx):
                 return ('every-started-span-exposes-a-valid-context', f'{where}: {o}')
+            # "custom id generators": the ids are the configured generator's (here: the counter generator of the case header)
+            if (int(ctx['sid'], 16) - sbase) % 2 ** 64 >= nstarts or (parent is None and (int(ctx['tid'], 16) - tbase) % 2 ** 128 >= nstarts):
+                return ('ids-come-from-the-configured-generator', f'{where}: {o} (span base {sbase:x}, trace base {tbase:x}, {nstarts} starts)')
             seen_sids.add(ctx['sid']); seen_tids.add(ctx['tid'])
             spans.append({'ctx': ctx, 'rec': rec, 'parent': parent, 'ended': False})
         elif op[0] in ('scope', 'endscope'):
